@@ -153,6 +153,39 @@ def _ret_shape(b, bb):
     return None
 
 
+def _go_execute_sites(b):
+    """blocks where the gate decides "execute this directive": the `Some(d)` values that can become the payload of an Ok return
+    (`return Ok(Some(d))`, or `Ok(match .. { X => None, _ => Some(d) })`: the Some arm, not the shared Ok)"""
+    out = []
+    rc = ret_carriers(b) | {0}
+    for bb in ok_sites(b):
+        for st in b.blocks[bb]["stmts"]:
+            if not (st["k"] == "assign" and st["lhs"]["l"] in rc and not st["lhs"]["p"] and st["rv"]["k"] == "aggregate"
+                    and st["rv"]["agg"].get("variant") == "Ok" and st["rv"]["agg"].get("adt") == "std::result::Result"):
+                continue
+            p = C.op_place(st["rv"]["ops"][0]) if st["rv"]["ops"] else None
+            if p is None or p["p"]:
+                continue
+            seen, work = set(), [p["l"]]
+            while work:
+                l = work.pop()
+                if l in seen:
+                    continue
+                seen.add(l)
+                for rec in b.defs().get(l, []):
+                    rv = rec[3]["rv"] if rec[0] == "assign" else None
+                    if rv is not None and rv["k"] == "aggregate" and rv["agg"].get("adt") == "std::option::Option":
+                        if rv["agg"]["variant"] == "Some":
+                            out.append(rec[1])
+                    elif rv is not None and rv["k"] == "use" and C.op_place(rv["op"]) is not None and not C.op_place(rv["op"])["p"]:
+                        work.append(C.op_place(rv["op"])["l"])
+                    elif rv is not None and rv["k"] == "use" and C.op_const(rv["op"]) is not None:
+                        pass
+                    else:
+                        out.append(bb)      # not a literal Some/None: the Ok return itself may say "execute"
+    return sorted(set(out))
+
+
 @rule("C02", "R02.2", floor=3)
 def r02_2(ctx):
     lib = ctx.lib
@@ -160,7 +193,7 @@ def r02_2(ctx):
     if not b:
         return
     mo = M.Modes(lib, mode_adts=(ADT["PpMode"],), all_modes=PPMODES)
-    somes = [bb for bb in ok_sites(b) if _ret_shape(b, bb) == "Ok(Some)"]
+    somes = _go_execute_sites(b)
     if not somes:
         ctx.anchor_missing("Ok(Some(directive)) return in the collect-deps gate")
     for bb in somes:
@@ -840,6 +873,13 @@ def r02_9(ctx):
     two spellings (`sub/../x`, a symlinked directory) must canonicalise to one key — otherwise it is processed twice and a depender can
     read it while the second run has it truncated (= C03 R03.6: AbsPath is built only from canonicalize())"""
     r03_6(ctx)
+
+
+@rule("C05", "R05.6", floor=4)
+def r05_6(ctx):
+    """no spurious cycle: DepManager records every finished file before looking up its dependers, and never records an edge to a finished
+    file — an edge to a file that will not be announced again would be left over and reported as a circular dependency (= C02 R02.7)"""
+    r02_7(ctx)
 
 
 @rule("C05", "R05.5", floor=1)
